@@ -74,6 +74,12 @@ def check_gap_equals(M, name, n, gap, value, lo, up):
         M.check(name, value == gap_spec(M, n, gap, lo, up))
 
 
+def view_of(M, g, n):
+    class _E:
+        incomplete_game = g
+    return view(M, _E, n)
+
+
 def view(M, env, n):
     g = env.incomplete_game
     lo = [M.val(x) for x in g.get_lower_bounds()]
@@ -197,9 +203,11 @@ def sc_env_step_unstep(M, n, computer, gap, action, budget=None):
     kn0, lo0, up0 = view(M, env, n)
     s0 = [M.val(x) for x in env.state]
     r0, d0, t0 = M.val(env.reward), M.val(env.done), M.val(env.steps_taken)
+    g0 = env.incomplete_game            # the object the caller handed to the environment (and may still hold)
     env.step(action)
     res = env.unstep(action)
-    kn1, lo1, up1 = view(M, env, n)
+    M.check("restore.same_game_object", env.incomplete_game is g0)
+    kn1, lo1, up1 = view(M, env, n) if env.incomplete_game is g0 else view_of(M, g0, n)
     s1 = [M.val(x) for x in env.state]
     for c in range(1 << n):
         M.check(f"restore.known[{c}]", M.iff(kn0[c], kn1[c]))
@@ -225,12 +233,17 @@ def solver_package():
 
 def snapshot_env(M, env, n):
     kn, lo, up = view(M, env, n)
-    return kn, lo, up, [M.val(x) for x in env.state], M.val(env.reward), M.val(env.steps_taken)
+    return kn, lo, up, [M.val(x) for x in env.state], M.val(env.reward), M.val(env.steps_taken), env.incomplete_game
 
 
 def check_env_unchanged(M, tag, before, env, n):
-    kn0, lo0, up0, s0, r0, t0 = before
-    kn1, lo1, up1, s1, r1, t1 = snapshot_env(M, env, n)
+    kn0, lo0, up0, s0, r0, t0, g0 = before
+    kn1, lo1, up1, s1, r1, t1, g1 = snapshot_env(M, env, n)
+    # the environment still works on the game object it was given, and THAT object is as it was (a caller holding a
+    # reference to it sees no change)
+    M.check(f"{tag}.same_game_object", g1 is g0)
+    if g1 is not g0:
+        kn1, lo1, up1 = view_of(M, g0, n)
     for c in range(1 << n):
         M.check(f"{tag}.known[{c}]", M.iff(kn0[c], kn1[c]))
         M.check(f"{tag}.lower[{c}]", lo0[c] == lo1[c])
@@ -417,7 +430,10 @@ def sc_search(M, n, max_size, gap="exploitability", start=()):
     full = complete_game(M, n, v)
     g = game_m.IncompleteCooperativeGame(n, bounds.BOUNDS["superadditive_cached"])
     known = sorted(set(minimal(n)) | set(start))
-    g.set_known_values([v[c] for c in known], [C(c) for c in known])
+    # the incomplete game handed in is a WORK SPACE: only its set of known coalitions is the starting knowledge.  The values
+    # it happens to hold there are whatever an earlier search left (another game's values): every gap must still be the
+    # gap of `full` at that knowledge
+    g.set_known_values([M.const(0) if c == 0 else M.real(f"stale{c}") for c in known], [C(c) for c in known])
     res = list(gp.get_exploitabilities_of_action_sequences(g, full, gap_function(M, gap), max_size=max_size, processes=3))
     unknown = [c for c in range(1 << n) if c not in known]
     lim = len(unknown) if max_size is None else max_size
